@@ -27,6 +27,45 @@ def expRec (r : RecIn) (now : Nat) : Ref.Record :=
 
 def expQ (q : QIn) : Ref.Question := { name := labelsOf q.name, qtype := q.ty, qclass := CLASS_IN }
 
+/-- the elements of `exp` that a greedy in-order match of `got` leaves out;
+    `none` if `got` is not an in-order subsequence of `exp` -/
+def leftOut {α : Type} [DecidableEq α] : List α → List α → Option (List α)
+  | [], exp => some exp
+  | _ :: _, [] => none
+  | g :: gs, e :: es =>
+    if g = e then leftOut gs es
+    else (leftOut (g :: gs) es).map (e :: ·)
+
+/-- all of them, or nothing -/
+def allSome {α : Type} : List (Option α) → Option (List α)
+  | [] => some []
+  | none :: _ => none
+  | some a :: rest => (allSome rest).map (a :: ·)
+
+/-- every message but the last has the flags with TC, the last one the flags themselves -/
+def flagsOK (flags : Nat) (ms : List Ref.Msg) : Bool :=
+  match ms.reverse with
+  | [] => false
+  | last :: initRev =>
+    last.flags == flags % 65536 && initRev.all (fun m => m.flags == (flags ||| FLAGS_TC) % 65536)
+
+/-- the clauses of `soundCore` that speak about the parsed messages -/
+def coreOn (o : OutMsg) (ms : List Ref.Msg) : Bool :=
+  ms.flatMap (·.questions) == o.questions.map expQ &&
+  (leftOut (ms.flatMap (·.answers)) (o.answers.map fun a => expRec a.1 a.2)).isSome &&
+  (leftOut (ms.flatMap (·.authorities)) (o.authorities.map (expRec · 0))).isSome &&
+  (leftOut (ms.flatMap (·.additionals)) (o.additionals.map (expRec · 0))).isSome &&
+  flagsOK o.flags ms
+
+/-- **`ok_C02`, core**: the conclusion of `Props.C02.encode_sound` as a decidable predicate on
+    a list of packets.  The theorem `soundCore_holds` says it is true of every packet list
+    the model produces; the monitor evaluates it on the packets of the REAL encoder. -/
+def soundCore (o : OutMsg) (pkts : List Ref.Bytes) : Bool :=
+  pkts.all (fun d => decide (d.size ≤ MAX_MSG_ABSOLUTE)) &&
+  match allSome (pkts.map Ref.parse) with
+  | none => false
+  | some ms => coreOn o ms
+
 /-- textual name as the crate's decoder builds it: every label followed by '.', no escaping -/
 def dotted (n : Ref.Name) : BList := n.flatMap fun l => l ++ [0x2E]
 
